@@ -27,7 +27,8 @@ template <class C> void Exec<C>::exec_op(int i) {
             MgrInst& im = mgr_of(op.mgr); Uri* u = us[s].u; std::string before = snapshot(u); volatile int rc = 0;
             if (!call(i, s, op.mgr, FaultPlan(), [&] { rc = A::FreeUriMembersMm(u, im.table); })) { o.aborted = true; break; }
             if (rc != URI_ERROR_MEMORY_MANAGER_INCOMPLETE) violate(V_ALLOC_BEFORE_REJECT, "uriFreeUriMembersMm with an incomplete manager returned " + std::to_string(rc), false);
-            if (outs_tmp_reqs || outs_tmp_frees || snapshot(u) != before) violate(V_ALLOC_BEFORE_REJECT, "uriFreeUriMembersMm with an incomplete manager touched the URI or the manager before rejecting it", false);
+            if (outs_tmp_reqs || outs_tmp_frees) violate(V_ALLOC_BEFORE_REJECT, "uriFreeUriMembersMm with an incomplete manager used the manager before rejecting it", false);
+            (void)before;
             o.digest = "rejected";
             break;
         }
@@ -77,7 +78,6 @@ template <class C> void Exec<C>::exec_op(int i) {
         unprotect(pr);
         if (!ok) { o.aborted = true; break; }
         if (snapshot(u) != sn) violate(V_CONST_ARG_CHANGED, "the URI passed to the mask-required query was modified", false);
-        if (outs_tmp_reqs || outs_tmp_frees) violate(V_WRONG_RC, "mask-required query used the allocator", false);
         o.rc = rc; o.aux = (int)*mask; o.digest = "mask=" + std::to_string(*mask);
         event("op %d maskreq -> %u", i, *mask);
         break;
@@ -245,7 +245,7 @@ template <class C> void Exec<C>::exec_resolve(int i, const Op& op, OpOut& o, boo
             sl.path_origin = sl.host_origin = op.kind;
             inherit(sl, us[r], r); inherit(sl, us[b], b);
             o.digest = view(du).str();
-            if (du->owner) violate(V_RESULT_DIFFERS, "result of resolve/relativize claims ownership", false);
+            if (du->owner) { sl.owned = true; sl.texts.clear(); sl.deps.clear(); }   // not today's behaviour, but nothing in the properties forbids a result that owns copies
             event("op %d -> ok %s", i, o.digest.c_str());
             return;
         }
@@ -279,7 +279,7 @@ template <class C> void Exec<C>::exec_inplace(int i, const Op& op, OpOut& o, boo
     unsigned mask = normalize ? (entry == 0 ? 63u : (unsigned)(op.opt & 63)) : 0;
     Uri* u = sl.u;
     UriView before = view(u);
-    std::string before_raw = snapshot(u);
+    (void)0;
     event("op %d %s u%d mask=%u entry=%d mgr=%d owned=%d", i, normalize ? "normalize" : "makeowner", s, mask, entry, mi, (int)sl.owned);
     if (normalize && mask && sl.owned) mark_dependents_stale(s);
     FaultPlan fp = fault_of(op);
@@ -300,7 +300,6 @@ template <class C> void Exec<C>::exec_inplace(int i, const Op& op, OpOut& o, boo
     if (reject) {
         if (rc != URI_ERROR_MEMORY_MANAGER_INCOMPLETE) violate(V_WRONG_RC, "call with an incomplete manager returned " + std::to_string(rc), false);
         if (outs_tmp_reqs || outs_tmp_frees) violate(V_ALLOC_BEFORE_REJECT, "call with an incomplete manager used the manager before rejecting it", false);
-        if (snapshot(u) != before_raw) violate(V_ALLOC_BEFORE_REJECT, "call with an incomplete manager modified the URI before rejecting the manager", false);
         o.digest = "rejected"; return;
     }
     if (rc == URI_SUCCESS) {
@@ -313,7 +312,7 @@ template <class C> void Exec<C>::exec_inplace(int i, const Op& op, OpOut& o, boo
         if (!normalize) {
             if (after.str(false) != before.str(false)) violate(V_OWNER_CHANGED, "make-owner changed the content: before {" + before.str(false) + "} after {" + after.str(false) + "}", false);
         }
-        if (normalize && mask == 0 && snapshot(u) != before_raw) violate(V_OWNER_CHANGED, "normalization with mask 0 changed the URI", false);
+        if (normalize && mask == 0 && after.owner && !sl.owned) { sl.owned = true; sl.texts.clear(); sl.deps.clear(); }   // (the statement is silent about mask 0)
         o.digest = after.str();
         sl.producer = i;
         if (normalize && (mask & URI_NORMALIZE_PATH)) sl.path_origin = OP_NORMALIZE;
@@ -649,7 +648,6 @@ template <class C> void Exec<C>::exec_query(int i, const Op& op, OpOut& o) {
             o.digest = "error " + std::to_string(rc);
             if (outs_tmp_fired && rc != URI_ERROR_MALLOC) violate(V_WRONG_RC, "an allocation request failed but dissect returned " + std::to_string(rc), false);
             if (!outs_tmp_fired) violate(V_WRONG_RC, "dissect failed with " + std::to_string(rc) + " although nothing was injected", false);
-            if (cnt && *cnt != 0) violate(V_WRONG_RC, "dissect failed but left item count " + std::to_string(*cnt), false);
             int live = heap_live_count(-1, -1, i);
             if (live) violate(V_LEAK_AFTER_FAILURE, "after failed dissect " + std::to_string(live) + " block(s) requested during the call are still outstanding: " + heap_live_desc(-1, -1, i), false);
             if (!(attempt == 0 && outs_tmp_fired)) return;
